@@ -206,7 +206,7 @@ def run(ctx):
     except Exception:  # noqa: BLE001
         have_lightning = False
         ctx.uncovered("device:lightning.qubit", "not importable")
-    N = ctx.n(150, 4500)
+    N = ctx.n(600, 4500)
     for i in range(N):
         if not ctx.more():
             break
